@@ -1,0 +1,25 @@
+//go:build verif
+// +build verif
+
+package proc
+
+import (
+	tc "github.com/polynetwork/poly/txnpool/common"
+)
+
+// Export shims for the verification harness (build tag verif), C37 capacity part: thin
+// accessors, no logic. (Separate file: verif_export.go of this package belongs to C36.)
+
+// VerifTxPool hands out the server's verified-transaction pool so that a check can pre-fill it.
+func (s *TXPoolServer) VerifTxPool() *tc.TXPool { return s.txPool }
+
+// VerifValidatorCount returns the number of registered validators (all verify types).
+func (s *TXPoolServer) VerifValidatorCount() int {
+	s.validators.RLock()
+	defer s.validators.RUnlock()
+	n := 0
+	for _, v := range s.validators.entries {
+		n += len(v)
+	}
+	return n
+}
